@@ -287,8 +287,8 @@ theorem cosmosChainK_val : cosmosChainK =
      (.always, .other), (.always, .other), (.always, .other), (.always, .other)] := by decide
 
 theorem ethChainK_val : ethChainK =
-    [(.always, .other), (.always, .other), (.always, .other), (.always, .ethOnly), (.always, .other),
-     (.always, .other), (.always, .other), (.always, .other), (.always, .other)] := by decide
+    [(.always, .other), (.always, .other), (.always, .other), (.always, .ethOnly), (.hasFetchers, .mempool),
+     (.always, .other), (.always, .other), (.always, .other), (.always, .other), (.always, .other)] := by decide
 
 theorem extCasesK_val : extCasesK =
     [("/ethermint.evm.v1.ExtensionOptionsEthereumTx", .eth), ("/ethermint.types.v1.ExtensionOptionsWeb3Tx", .cosmos true)] := by
@@ -320,11 +320,11 @@ theorem runCosmos_pass_iff (cfg : Cfg) (md : Mode) (e : Bool) (tx : Tx) :
     cases ha : authzLimiter c15AuthzDisabled tx.msgs <;> simp
 
 theorem runEth_pass_iff (cfg : Cfg) (md : Mode) (tx : Tx) :
-    runChain cfg md false tx ethChainK = .pass ↔ ethOnlyDec tx.msgs = true := by
+    runChain cfg md false tx ethChainK = .pass ↔
+      (ethOnlyDec tx.msgs = true ∧ (hasFetchers cfg = true → mempoolDec md tx.signers cfg.authorised = true)) := by
   rw [ethChainK_val]
   simp only [runChain, condHolds, decStep, ite_true]
-  cases ethOnlyDec tx.msgs <;> simp
-
+  cases ethOnlyDec tx.msgs <;> cases hasFetchers cfg <;> cases mempoolDec md tx.signers cfg.authorised <;> simp
 
 /-! ### the router on the generated tables -/
 
@@ -414,7 +414,8 @@ theorem noBlocked_iff (bl : List String) (ms : List Msg) :
 /-- the composed gate, route by route -/
 theorem anteGate_pass_iff (cfg : Cfg) (md : Mode) (tx : Tx) :
     anteGate cfg md tx = .pass ↔
-      ((tx.opts = [ethOptURL] ∧ ethOnlyDec tx.msgs = true) ∨
+      ((tx.opts = [ethOptURL] ∧ ethOnlyDec tx.msgs = true ∧
+        (hasFetchers cfg = true → mempoolDec md tx.signers cfg.authorised = true)) ∨
        ((tx.opts = [] ∨ tx.opts = [web3OptURL]) ∧ rejectMsgsDec tx.msgs = true ∧
         (hasFetchers cfg = true → mempoolDec md tx.signers cfg.authorised = true) ∧
         vestingDec c15VestingDisabled tx.msgs = true ∧ authzLimiter c15AuthzDisabled tx.msgs = .ok)) := by
